@@ -368,6 +368,12 @@ func (w *World) CheckTx(bz []byte) TxRes {
 	return TxRes{Code: r.Code, Codespace: r.Codespace, Data: r.Data, GasWanted: r.GasWanted, GasUsed: r.GasUsed, Log: r.Log, Events: r.Events}
 }
 
+// ReCheckTx is CheckTx in the mode the mempool uses after every commit for the transactions it still holds.
+func (w *World) ReCheckTx(bz []byte) TxRes {
+	r := w.App.CheckTx(abci.RequestCheckTx{Tx: bz, Type: abci.CheckTxType_Recheck})
+	return TxRes{Code: r.Code, Codespace: r.Codespace, Data: r.Data, GasWanted: r.GasWanted, GasUsed: r.GasUsed, Log: r.Log, Events: r.Events}
+}
+
 func (w *World) EndBlock() (res abci.ResponseEndBlock, pan string) {
 	defer func() {
 		if r := recover(); r != nil {
